@@ -1,2 +1,147 @@
-/-! Line-protocol driver stub for the print cluster (to be written by the cluster owner). -/
-def main : IO Unit := IO.println "bad-op"
+import J5V.Go.Hex
+import J5V.Print.TextString
+import J5V.Print.RefName
+import J5V.Print.OptionText
+import J5V.Print.Order
+/-! Line-protocol driver for the print cluster (C05), core only.
+One op per input line, one result per output line; see /verif/harness/PROTOCOL-print.md. -/
+open J5V.Go J5V.Print
+
+def hexOrErr (o : Option (List Nat)) : String :=
+  match o with
+  | some bs => toHexW bs
+  | none => "err"
+
+def dotted (s : String) : List String := if s == "-" then [] else s.splitOn "."
+def undot (p : List String) : String := if p.isEmpty then "-" else ".".intercalate p
+def commaList (s : String) : List String := if s == "-" then [] else s.splitOn ","
+
+def parseKind (s : String) : Option RefName.Kind :=
+  match s with
+  | "m" => some .msg | "e" => some .enum | "s" => some .svc | "l" => some .leaf | _ => none
+
+def parseSym (s : String) : Option RefName.Sym :=
+  match s.splitOn ":" with
+  | [k, p] => (parseKind k).map fun kk => ⟨dotted p, kk⟩
+  | _ => none
+
+def bytesToString (bs : List Nat) : String := String.ofList (bs.map Char.ofNat)
+def stringToBytes (s : String) : List Nat := s.toUTF8.toList.map (·.toNat)
+
+def hexStr (s : String) : Option String := (fromHex s).map bytesToString
+
+/-- prefix-notation option trees: `S key val` | `M key n kids…` | `A key n kids…` -/
+partial def parseTree : List String → Option (OptionText.Opt × List String)
+  | "S" :: k :: v :: rest => do
+    let k ← hexStr k; let v ← hexStr v
+    pure (.scalar k v, rest)
+  | tag :: k :: n :: rest => do
+    let k ← hexStr k
+    let n ← n.toNat?
+    let rec kids (i : Nat) (toks : List String) (acc : List OptionText.Opt) : Option (List OptionText.Opt × List String) :=
+      if i = 0 then some (acc.reverse, toks) else
+      match parseTree toks with
+      | some (o, toks') => kids (i - 1) toks' (o :: acc)
+      | none => none
+    let (ks, rest') ← kids n rest []
+    if tag == "M" then pure (.msg k ks, rest')
+    else if tag == "A" then pure (.arr k ks, rest')
+    else none
+  | _ => none
+
+partial def treeDepth : OptionText.Opt → Nat
+  | .scalar _ _ => 1
+  | .msg _ ks | .arr _ ks => 1 + (ks.map treeDepth).foldl max 0
+
+def joinLines (ls : List String) : String := toHexW (stringToBytes ("\n".intercalate ls ++ "\n"))
+
+def parseElem (s : String) : Option Order.Elem :=
+  match (s.splitOn ",").map String.toNat? with
+  | [some t, some l, some i] => some ⟨t, l, i⟩
+  | _ => none
+
+def parseLoc (s : String) : Option Order.OptLoc :=
+  match (s.splitOn ",").map String.toNat? with
+  | [some h, some l, some i] => some ⟨h != 0, l, i⟩
+  | _ => none
+
+def indexList (xs : List Nat) : String := ",".intercalate (xs.map toString)
+
+def sortIdx {α} (lt : α → α → Bool) (xs : List α) : String :=
+  let tagged := (List.range xs.length).zip xs
+  if Order.noTies lt xs then indexList ((Order.isort (fun a b => lt a.2 b.2) tagged).map (·.1))
+  else "unspecified"
+
+partial def parsePOpts (n : Nat) (toks : List String) (acc : List OptionText.POpt) : Option (List OptionText.POpt) :=
+  if n = 0 then (if toks.isEmpty then some acc.reverse else none) else
+  match toks with
+  | full :: rel :: rest => do
+    let full ← hexStr full; let rel ← hexStr rel
+    let (tree, rest') ← parseTree rest
+    let (sub, root) := OptionText.simplified full tree (treeDepth tree)
+    -- no source info in the kernel stream: single line, in line with the parent
+    let p : OptionText.POpt := ⟨OptionText.optionName rel sub, root, OptionText.inlineString true root, true⟩
+    parsePOpts (n - 1) rest' (p :: acc)
+  | _ => none
+
+def step (line : String) : String :=
+  match line.trimAscii.toString.splitOn " " with
+  | ["str", h] => match fromHex h with
+    | some bs =>
+      let lit := TextString.textString bs
+      toHexW lit ++ " " ++ hexOrErr (TextString.unescape lit)
+    | none => "bad-op"
+  | ["lit", h] => match fromHex h with
+    | some bs => hexOrErr (TextString.unescape bs)
+    | none => "bad-op"
+  | ["ref", only, cp, c, tp, t, pkgs, syms] =>
+    match (commaList syms).mapM parseSym with
+    | some ss =>
+      let tab : RefName.Tab := ⟨ss, (commaList pkgs).map dotted⟩
+      let name := RefName.refName (dotted cp) (dotted c) (dotted tp) (dotted t)
+      let res := RefName.resolve tab (dotted cp) (dotted c) (only == "1") name
+      "name=" ++ undot name ++ " res=" ++ (match res with | some p => undot p | none => "err")
+    | none => "bad-op"
+  | ["less", a, b] => match parseElem a, parseElem b with
+    | some x, some y => toString (Order.less x y)
+    | _, _ => "bad-op"
+  | ["locless", a, b] => match parseLoc a, parseLoc b with
+    | some x, some y => toString (Order.locLess x y)
+    | _, _ => "bad-op"
+  | "sort" :: es => match es.mapM parseElem with
+    | some xs => if Order.uniformLines xs then sortIdx Order.less xs else "unspecified"
+    | none => "bad-op"
+  | "namesort" :: ns => match ns.mapM fromHex with
+    | some xs => sortIdx Order.nameLess xs
+    | none => "bad-op"
+  | "optstmt" :: single :: full :: _bytes :: rel :: tree =>
+    match hexStr full, hexStr rel, parseTree tree with
+    | some full, some rel, some (t, []) =>
+      let (sub, root) := OptionText.simplified full t (treeDepth t)
+      joinLines (OptionText.optionStmt 0 (OptionText.optionName rel sub) (single == "1") root)
+    | _, _, _ => "bad-op"
+  | "optfield" :: head :: number :: _bytes :: fname :: json :: n :: rest =>
+    match hexStr head, hexStr fname, fromHex json, n.toNat? with
+    | some head, some fname, some json, some n =>
+      match parsePOpts n rest [] with
+      | some opts =>
+        let sorted := OptionText.sortByName opts
+        let withJson :=
+          if bytesToString json != String.ofList (OptionText.defaultJSONName fname.toList) then
+            sorted ++ [⟨"json_name", .scalar "" "", some (bytesToString (TextString.textString json)), true⟩]
+          else sorted
+        joinLines (OptionText.fieldStyle 0 head number withJson)
+      | none => "bad-op"
+    | _, _, _, _ => "bad-op"
+  | _ => "bad-op"
+
+partial def loop (h : IO.FS.Stream) (out : IO.FS.Stream) : IO Unit := do
+  let line ← h.getLine
+  if line.isEmpty then return ()
+  out.putStrLn (step line)
+  loop h out
+
+def main : IO Unit := do
+  let out ← IO.getStdout
+  loop (← IO.getStdin) out
+  out.flush
